@@ -213,11 +213,12 @@ def prelude():
 # so that assertions can be written to hold (or to fail on purpose) according to the MODEL
 # =====================================================================================================
 class G:
-    def __init__(self, rng, fam):
+    def __init__(self, rng, fam, split_home=False):
         self.rng = rng
         self.case = {'fam': fam, 'mode': 'keep', 'actor': None, 'setup': [], 'act': None, 'before-assert': [],
-                     'assert': [], 'cleanup': []}
-        self.sh = P.Machine(P.Dirs('/H', '/S'), P.R('/H/rec.jsonl'), home_files=HOME_TEXTS)
+                     'assert': [], 'cleanup': [], 'split_home': split_home}
+        self.sh = P.Machine(P.Dirs('/H', '/S', '/H/' + P.ACT_HOME_DIR if split_home else None), P.R('/H/rec.jsonl'),
+                            home_files=HOME_TEXTS)
         self.failed = False
         self.act_done = False
         self.n = 0
@@ -713,12 +714,12 @@ def p_exit(spec, p):
 def build(desc):
     fam = desc['fam']
     rng = common.rng_for(desc.get('seed', 0), ID, fam, repr(sorted(desc.items())))
-    b = B(rng, fam)
-    globals()['_fam_' + fam](b, desc)
     # a third of the cases set the act-home directory apart from the home directory ([conf] act-home = ah), where the
     # files of the same names have other contents: the default relativities (home for most arguments, act-home for the
     # action) then denote different files
-    b.case['split_home'] = (sum(map(ord, repr(sorted(desc.items())))) % 3 == 0)
+    split = (sum(map(ord, repr(sorted(desc.items())))) % 3 == 0)
+    b = B(rng, fam, split)
+    globals()['_fam_' + fam](b, desc)
     return b
 
 
